@@ -2,6 +2,7 @@
 # usage: tools/seedrun.sh <dir with patch.diff> <check id>...   -- applies the change to /repo, runs the quick checks, reverts
 d=$(readlink -f "$1"); shift
 cd /verif
+export VERIF_EVIDENCE_DIR=/verif/.work/seed-evidence VERIF_REPLAY_DIR=/verif/.work/seed-replays
 if [ -n "$(git -C /repo status --porcelain)" ]; then echo "/repo not clean"; exit 2; fi
 git -C /repo apply "$d/patch.diff" || { echo APPLY-FAILED; exit 3; }
 for c in "$@"; do
